@@ -2554,6 +2554,11 @@ impl Melda {
         rt: &RevisionTree,
     ) -> Result<Option<Map<String, Value>>> {
         let new_descriptor = ArrayDescriptor::new_from_object(obj).expect("malformed_descriptor");
+        // A deleted descriptor must be re-created with a full order: an empty patch against
+        // the (empty) order of the deletion would otherwise leave the descriptor deleted
+        if rt.get_winner().expect("no_winner").is_deleted() {
+            return Ok(Some(new_descriptor.to_json_object()));
+        }
         let winning_order = self
             .rebuild_array_order(rt.get_winner().expect("no_winner"), rt)
             .expect("expecting_winning_order");
